@@ -1051,7 +1051,7 @@ pub fn prop() -> DiceProp {
         nightly: false,
         check_only: true,
         ndice: 200,
-        quick: (2400, 1),
+        quick: (12000, 1),
         thorough: (6000, 8),
         build,
         fixed: no_fixed,
